@@ -131,9 +131,11 @@ def late_enforcer(rules, rng):
     return e, texts, d
 
 
-def check_case(rules, rng, late=False):
+def check_case(rules, rng, late=False, decorate=None):
     from oslo_policy import policy
     texts = {n: ev.rule_text(t, rng) for n, t in rules}
+    if decorate:
+        texts = {n: decorate(t) for n, t in texts.items()}
     c = {'kind': 'check', 'rules': [[n, ev.strip(t)] for n, t in rules], 'ok': 0, 'raised': 0, 'terminated': 1, 'crashed': 0,
          '_texts': texts}
     try:
@@ -196,12 +198,14 @@ def check_case(rules, rng, late=False):
     return c
 
 
-def validator_case(rules, rng, missing=False, unknown=False, unparseable=False, only_default=()):
+def validator_case(rules, rng, missing=False, unknown=False, unparseable=False, only_default=(), decorate=None):
     """run generator._validate_policy on a policy file holding ``rules``"""
     from oslo_config import cfg
     from oslo_policy import generator, opts, policy
     d = tempfile.mkdtemp(prefix='verif_val_')
     texts = {n: ev.rule_text(t) for n, t in rules}
+    if decorate:
+        texts = {n: decorate(t) for n, t in texts.items()}
     names = list(texts)
     if unparseable and names:
         texts[names[0]] = rng.choice(['(bar))', 'role:r and', 'not', 'role:r role:r', "'quoted'"])
@@ -342,6 +346,16 @@ def run(ctx):
             k = rng.randint(1, len(rules) - 1)
             rules, od = rules[:k], rules[k:]
         cases.append(validator_case(rules, rng, missing=r < 0.1, unknown=0.1 <= r < 0.3, unparseable=0.3 <= r < 0.45, only_default=od))
+    # rule texts with blanks around them (an indented or folded YAML scalar, a trailing newline): the same graph
+    R_ = ev.role('r')
+    shapes = [[('n1', ev.rule('n1'))], [('n1', ev.rule('n2')), ('n2', ev.Not(ev.rule('n1')))], [('n1', ev.And(R_, ev.rule('zz')))],
+              [('n1', ev.Or(ev.rule('n2'), ev.rule('n3'))), ('n2', ev.rule('n4')), ('n3', ev.rule('n4')), ('n4', R_)],
+              [('n1', ev.rule('n2')), ('n2', ev.rule('n3')), ('n3', ev.Or(R_, ev.Not(ev.rule('n1'))))], [('n1', ev.Not(ev.rule('n2'))), ('n2', ev.T)]]
+    for pre, post in ((' ', ''), ('\t', ''), ('\n  ', '\n'), ('', ' '), ('  ', '  ')):
+        for g in shapes:
+            deco = (lambda t, pre=pre, post=post: pre + t + post)
+            cases.append(check_case(g, rng, decorate=deco))
+            cases.append(validator_case(g, rng, decorate=deco))
     rejected, st = tlc.judge_cases('Conf_Validate', [ec.strip_case(c) for c in cases], chunk=20000, timeout=3000)
     ctx.traces += len(cases)
     from harness import canary
